@@ -3,6 +3,7 @@ package main
 import (
 	"fmt"
 	"go/types"
+	"os"
 
 	"golang.org/x/tools/go/ssa"
 )
@@ -49,6 +50,9 @@ func (m *Machine) callBuiltin(caller *frame, name string, args []value, site ssa
 		if caller != nil && caller.caller != nil && caller.caller.panicking != nil {
 			p := caller.caller.panicking
 			caller.caller.panicking = nil
+			if os.Getenv("GOSX_DEBUG") != "" {
+				fmt.Fprintf(os.Stderr, "RECOVERED in %s: %s\n", caller.caller.fn, p.msg)
+			}
 			return p.v
 		}
 		return Iface{}
